@@ -11,6 +11,7 @@ harness is deterministic (`Harness.out` is a function of run and invocation).
 invocations `1..N` that all deliver data (0 if a build of the run fails).
 -/
 import RB.Proofs.Lemmas.Session
+import RB.Proofs.Lemmas.Resume
 
 namespace RB.Session
 open RB.DataFile
@@ -89,6 +90,55 @@ theorem c08_interrupted_safe (cfg : List (RunC κ)) (H : Harness) (stop : Option
   have := (h2 i c hc).2
   simpa [startState, List.getD_eq_getElem?_getD, List.getElem?_map, hlen ▸ hi, restored] using this
 
+/-- "executes exactly the invocations not yet recorded … recorded ones never": in any session — any
+scheduler, choice stream, order, stop point — every benchmark process that is started is for an invocation
+number beyond those recorded when the session began, and it is the next unrecorded one of its run at that
+moment (so a recorded invocation is never started again, and an interrupted or failed one is) -/
+theorem c08_recorded_never_restarted (cfg : List (RunC κ)) (H : Harness) (stop : Option Nat) (sched : Sched)
+    (fuel : Nat) (choices order : List Nat) (files : List (FP κ β)) (ms : List (Nat × Nat))
+    (hlen : ms.length = cfg.length) (hord : ∀ i, i < cfg.length → i ∈ order)
+    (hle : ∀ i c, cfg[i]? = some c → (ms.getD i (0, 0)).1 ≤ recordedInTheEnd H c i)
+    (s' : St κ β) (res : Option Bool)
+    (hrun : loop benchOf cfg H stop sched fuel choices (workList cfg ms order) (startState files ms) = (s', res)) :
+    ∀ j inv, Ev.start j inv ∈ s'.trace →
+      (ms.getD j (0, 0)).1 < inv ∧ inv ≤ (s'.runs.getD j dfltRun).m + 1 := by
+  have hinv := startState_inv cfg H files ms order hlen hord hle
+  let F : St κ β → Prop := fun s =>
+    (∀ j inv, Ev.start j inv ∈ s.trace → (ms.getD j (0, 0)).1 < inv ∧ inv ≤ (s.runs.getD j dfltRun).m + 1) ∧
+    (∀ j, j < cfg.length → (ms.getD j (0, 0)).1 ≤ (s.runs.getD j dfltRun).m)
+  have hF0 : F (startState files ms) := by
+    refine ⟨by intro j inv h; simp [startState] at h, ?_⟩
+    intro j hj
+    simp [startState, List.getD_eq_getElem?_getD, List.getElem?_map, hlen ▸ hj, restored]
+  have hstepF : ∀ (tasks : List Nat) (s : St κ β) (i : Nat) (c : RunC κ) (s1 : St κ β) (r1 : StepRes),
+      LInv cfg H tasks s → i ∈ tasks → cfg[i]? = some c → F s →
+      step benchOf cfg H stop s i = (s1, r1) → F s1 := by
+    intro tasks s i c s1 r1 hL himem hc hFs hst
+    have hi : i < s.runs.length := by rw [hL.len]; exact hL.inRange i himem
+    obtain ⟨_, _, q3, _, _, q6⟩ := step_spec benchOf cfg H stop s i c hc hi hL.b (hL.r i c hc) s1 r1 hst
+    obtain ⟨evs, ht, hev⟩ := step_trace benchOf cfg H stop s i c hc s1 r1 hst
+    have hmono : ∀ j, (s.runs.getD j dfltRun).m ≤ (s1.runs.getD j dfltRun).m := by
+      intro j
+      by_cases hji : j = i
+      · subst hji; exact q6
+      · rw [q3 j hji]
+    refine ⟨?_, fun j hj => Nat.le_trans (hFs.2 j hj) (hmono j)⟩
+    intro j inv hmem
+    rw [ht] at hmem
+    rcases List.mem_append.mp hmem with h | h
+    · have := hFs.1 j inv h
+      have := hmono j
+      omega
+    · rcases hev _ h with ⟨b, hb⟩ | hb
+      · cases hb
+      · injection hb with e1 e2
+        subst e1
+        have h1 := hFs.2 j (hL.inRange j himem)
+        have h2 := hmono j
+        omega
+  obtain ⟨hF', _⟩ := loop_spec_with benchOf cfg H stop sched F hstepF fuel choices _ _ hinv hF0 s' res hrun
+  exact hF'.1
+
 /-- A history of sessions on the same files: each session starts from the
 progress the previous one ended with (which is what loading the file restores:
 C07 `c07_load_persist`; the restored sample counts are arbitrary), with fresh
@@ -108,24 +158,7 @@ inductive Chain (cfg : List (RunC κ)) (H : Harness) : List Nat → List Nat →
       Chain cfg H (s'.runs.map (·.m)) msEnd done →
       Chain cfg H (ms.map (·.1)) msEnd done
 
-/-
-FULL STATEMENT (not proved in Lean; what is missing is the file-level link below):
-
-  theorem c08_resume_equiv : for every history of sessions as in `Chain` whose last session completes,
-    started on absent files, and for every data file `f`:
-      (final contents of f).filterMap measProj  ~  (contents of f after the uninterrupted session).filterMap measProj
-    (`~` = `List.Perm`, i.e. equal as multisets).
-
-What is proved: `c08_resume_equiv_partial` (every run ends with exactly the invocations `1..K r` recorded,
-none beyond, none lost on the way — the same as the uninterrupted session), `c06_appended_exactly` and
-`c06_right_files` (what one session appends to a file is exactly the lines of the data points persisted for
-the runs of that file) and `c07_load_persist` (loading restores the recorded invocations).  Missing: the
-induction that threads these through `loop` (file contents as a function of the data-delivering starts of
-the trace) and the permutation argument over interleavings.  The correspondence check compares the final
-files of every chain with an uninterrupted control run on the real code.
--/
-
-/-- `resume_equiv`, PARTIAL — in terms of recorded invocations: for every list of stop
+/-- `resume_equiv` in terms of recorded invocations (the file-level statement is `c08_resume_equiv` below): for every list of stop
 points, every scheduler and every schedule, running sessions one after the
 other until one completes ends with exactly `K r` invocations recorded for
 every run `r` — which is also what the uninterrupted session from the empty
@@ -134,7 +167,7 @@ session records an invocation beyond `K r` and none loses one
 (`c08_interrupted_safe`), so every invocation `1..K r` is recorded exactly
 once over the whole history, interrupted invocations being started again and
 recorded ones never (a start of run `r` is always for invocation `m + 1`). -/
-theorem c08_resume_equiv_partial (cfg : List (RunC κ)) (H : Harness) (ms0 msEnd : List Nat)
+theorem c08_resume_equiv_counts (cfg : List (RunC κ)) (H : Harness) (ms0 msEnd : List Nat)
     (hchain : Chain benchOf cfg H ms0 msEnd true)
     (hle : ∀ i c, cfg[i]? = some c → ms0.getD i 0 ≤ recordedInTheEnd H c i) :
     msEnd.length = cfg.length ∧ ∀ i c, cfg[i]? = some c → msEnd.getD i 0 = recordedInTheEnd H c i := by
@@ -171,24 +204,134 @@ theorem c08_resume_equiv_partial (cfg : List (RunC κ)) (H : Harness) (ms0 msEnd
     have := (hs.2 i c hc).2
     simpa [List.getD_eq_getElem?_getD, List.getElem?_map, hs.1 ▸ hi] using this
 
+/-! ## File level -/
+
 omit [DecidableEq κ] [DecidableEq β] in
-theorem loadAll_contents (rtK : κ → κ) (rtB : β → β) [DecidableEq κ] [DecidableEq β] (contents : List (List (Line κ β)))
-    (loaded : List (FP κ β × List (Loaded κ))) (h : loadAll rtK rtB contents = .ok loaded) :
+theorem between_empty (cfg : List (RunC κ)) (H : Harness) (nfiles : Nat) [DecidableEq κ] [DecidableEq β] :
+    Between benchOf cfg H nfiles (List.replicate nfiles ([] : List (Line κ β))) (fun _ => 0) := by
+  refine ⟨by simp, ?_, ?_, ?_, fun _ _ _ => Nat.zero_le _⟩
+  · intro f c hc
+    have : c = [] := by
+      have := List.mem_of_getElem? hc
+      exact (List.mem_replicate.mp this).2
+    subst this; exact .empty
+  · intro f i c cont _ hcont
+    have : cont = [] := (List.mem_replicate.mp (List.mem_of_getElem? hcont)).2
+    subst this
+    simp [measRows, expectedRows]
+  · intro f cont hcont p hp
+    have : cont = [] := (List.mem_replicate.mp (List.mem_of_getElem? hcont)).2
+    subst this
+    simp [measRows] at hp
+
+/-- any history of sessions keeps the files in step with the recorded invocations -/
+theorem sessions_between (cfg : List (RunC κ)) (H : Harness) (nfiles : Nat) (hcfg : CfgOK cfg nfiles)
+    (hH : HarnessOK H) :
+    ∀ (specs : List (Sched × List Nat × List Nat × Option Nat)) (contents : List (List (Line κ β))) (m : Nat → Nat),
+      (∀ sp ∈ specs, ∀ i, i < cfg.length → i ∈ sp.2.1) → Between benchOf cfg H nfiles contents m →
+      ∀ r, (sessions benchOf (fun x => x) (fun x => x) cfg H specs contents).getLast? = some r →
+        ∃ m', Between benchOf cfg H nfiles r.contents m' ∧
+          (r.ending = .complete → ∀ (i : Nat) (c : RunC κ), cfg[i]? = some c → m' i = recordedInTheEnd H c i) := by
+  intro specs
+  induction specs with
+  | nil => intro contents m _ _ r hr; simp [sessions] at hr
+  | cons sp rest ih =>
+    intro contents m hord hB r hr
+    obtain ⟨sched, order, choices, stop⟩ := sp
+    simp only [sessions] at hr
+    obtain ⟨m0, hB0, _, hdone0⟩ := session_between benchOf cfg H nfiles hcfg hH sched order choices stop
+      (hord (sched, order, choices, stop) (by simp)) contents m hB
+    cases hrest : sessions benchOf (fun x => x) (fun x => x) cfg H rest
+        (session benchOf (fun x => x) (fun x => x) cfg H sched order choices stop contents).contents with
+    | nil =>
+      rw [hrest] at hr
+      simp at hr
+      subst hr
+      exact ⟨m0, hB0, hdone0⟩
+    | cons r1 rs =>
+      rw [hrest, List.getLast?_cons_cons] at hr
+      rw [← hrest] at hr
+      exact ih _ m0 (fun sp hsp => hord sp (List.mem_cons_of_mem _ hsp)) hB0 r hr
+
+/-- `resume_equiv`: for every list of stop points, every scheduler and every
+schedule — any history of sessions on initially absent data files, each
+interrupted at any process start or not at all, each with its own scheduler,
+choice stream and order of the run set, reloading the files in between — if
+the last session runs to completion then every data file contains, as a
+multiset, exactly the measurement lines of an uninterrupted session: none
+lost, none duplicated.  (`CfgOK`: distinct runs, each recorded in at least
+one file; `HarnessOK`: every delivered data point has a readable `total`.) -/
+theorem c08_resume_equiv (cfg : List (RunC κ)) (H : Harness) (nfiles : Nat) (hcfg : CfgOK cfg nfiles)
+    (hH : HarnessOK H)
+    (specs : List (Sched × List Nat × List Nat × Option Nat))
+    (hord : ∀ sp ∈ specs, ∀ i, i < cfg.length → i ∈ sp.2.1)
+    (csched : Sched) (corder cchoices : List Nat) (hcord : ∀ i, i < cfg.length → i ∈ corder)
+    (r : SessionResult κ β)
+    (hr : (sessions benchOf (fun x => x) (fun x => x) cfg H specs (List.replicate nfiles [])).getLast? = some r)
+    (hcomplete : r.ending = .complete)
+    (hctl : (session benchOf (fun x => x) (fun x => x) cfg H csched corder cchoices none
+              (List.replicate nfiles [])).ending = .complete)
+    (f : Nat) (c1 c2 : List (Line κ β)) (h1 : r.contents[f]? = some c1)
+    (h2 : (session benchOf (fun x => x) (fun x => x) cfg H csched corder cchoices none
+              (List.replicate nfiles [])).contents[f]? = some c2) :
+    (measRows c1).Perm (measRows c2) := by
+  obtain ⟨m1, hB1, hd1⟩ := sessions_between benchOf cfg H nfiles hcfg hH specs _ _ hord
+    (between_empty benchOf cfg H nfiles) r hr
+  obtain ⟨m2, hB2, _, hd2⟩ := session_between benchOf cfg H nfiles hcfg hH csched corder cchoices none hcord
+    _ _ (between_empty benchOf cfg H nfiles)
+  apply perm_of_keyed (fun p => p.1) (cfg.map (·.key))
+  · intro k hk
+    obtain ⟨c, hc, rfl⟩ := List.mem_map.mp hk
+    obtain ⟨i, hi⟩ := List.getElem?_of_mem hc
+    have e1 := hB1.rows f i c c1 hi h1
+    have e2 := hB2.rows f i c c2 hi h2
+    rw [hd1 hcomplete i c hi] at e1
+    rw [hd2 hctl i c hi] at e2
+    show List.filter (fun p => p.1 = c.key) (measRows c1) = List.filter (fun p => p.1 = c.key) (measRows c2)
+    rw [e1, e2]
+  · intro p hp
+    obtain ⟨i, c, hc, hk⟩ := hB1.known f c1 h1 p hp
+    exact List.mem_map.mpr ⟨c, List.mem_of_getElem? hc, hk.symm⟩
+  · intro p hp
+    obtain ⟨i, c, hc, hk⟩ := hB2.known f c2 h2 p hp
+    exact List.mem_map.mpr ⟨c, List.mem_of_getElem? hc, hk.symm⟩
+
+-- non-vacuity of the hypotheses: two runs on one file, a harness whose data points have a total
+example : CfgOK ([{ key := 0, invocations := 2, retries := 0, warmup := 0, files := [0], builds := [] },
+                  { key := 1, invocations := 1, retries := 0, warmup := 0, files := [0], builds := [] }] : List (RunC Nat)) 1 :=
+  ⟨by decide, by intro c hc; simp at hc; rcases hc with rfl | rfl <;> simp⟩
+example : HarnessOK { out := fun _ _ => some [[{ crit := "total", unit := "ms", value := .raw "1".toList }]],
+                      buildOk := fun _ => true } := by
+  intro i t dps h ms hms
+  simp at h; subst h
+  simp at hms; subst hms
+  exact ⟨{ crit := "total", unit := "ms", value := .raw "1".toList }, by simp, rfl, by decide +kernel⟩
+
+omit [DecidableEq κ] [DecidableEq β] in
+theorem loadAllWith_contents (ld : List (Line κ β) → Except LoadErr (Tables κ β × List (Loaded κ)))
+    (contents : List (List (Line κ β)))
+    (loaded : List (FP κ β × List (Loaded κ))) (h : loadAllWith ld contents = .ok loaded) :
     (loaded.map (·.1)).map (·.content) = contents := by
   induction contents generalizing loaded with
-  | nil => simp [loadAll] at h; subst h; rfl
+  | nil => simp [loadAllWith] at h; subst h; rfl
   | cons c cs ih =>
-    unfold loadAll at h
-    cases hl : load rtK rtB c with
+    unfold loadAllWith at h
+    cases hl : ld c with
     | error e => simp [hl] at h
     | ok p =>
       obtain ⟨t, ls⟩ := p
-      cases hr : loadAll rtK rtB cs with
+      cases hr : loadAllWith ld cs with
       | error e => simp [hl, hr] at h
       | ok rest =>
         simp only [hl, hr, Except.ok.injEq] at h
         subst h
         simp [FP.ofTables, ih rest hr]
+
+omit [DecidableEq κ] [DecidableEq β] in
+theorem loadAll_contents (rtK : κ → κ) (rtB : β → β) [DecidableEq κ] [DecidableEq β] (contents : List (List (Line κ β)))
+    (loaded : List (FP κ β × List (Loaded κ))) (h : loadAll rtK rtB contents = .ok loaded) :
+    (loaded.map (·.1)).map (·.content) = contents :=
+  loadAllWith_contents _ contents loaded h
 
 /-- `rerun_noop`: a session on files in which every run is complete after
 loading (in particular: every run has its `N` invocations recorded) starts no
@@ -202,7 +345,7 @@ theorem c08_rerun_noop (rtK : κ → κ) (rtB : β → β) (cfg : List (RunC κ)
     (session benchOf rtK rtB cfg H sched order choices stop contents).ending = .complete ∧
     (session benchOf rtK rtB cfg H sched order choices stop contents).trace = [] ∧
     (session benchOf rtK rtB cfg H sched order choices stop contents).contents = contents := by
-  unfold session
+  unfold session sessionWith
   simp only [hl]
   generalize hf : List.filter _ order = tasks
   have htasks : tasks = [] := by
